@@ -7,8 +7,8 @@
 From Coq Require Import List Arith Bool ZArith QArith.
 Import ListNotations.
 Require Import Base.C11_Unique Model.C11_Topo Proofs.C11_TopoProofs.
-Require Import Model.C12_Refine Model.C12_Geom Model.C13_Adaptive Model.C12_Global.
-Require Import Proofs.C12_RefineProofs Proofs.C12_GeomProofs Proofs.C13_AdaptiveProofs Proofs.C12_GlobalProofs.
+Require Import Model.C12_Refine Model.C12_Geom Model.C13_Adaptive Model.C12_Global Model.C13_TetLoop.
+Require Import Proofs.C12_RefineProofs Proofs.C12_GeomProofs Proofs.C13_AdaptiveProofs Proofs.C12_GlobalProofs Proofs.C13_TetLoopProofs.
 Require Import Gen.C13Gen Dyn.C13Tie.
 Local Open Scope nat_scope.
 
@@ -158,6 +158,39 @@ Theorem C13_tet_bisection_tiles_parent_partial :
   all_pairs_ok (fun a b => separable 4 (tetW a) (tetW b)) gen_tet_bisect = true.
 Proof. exact (tet_tiles_sound tetW gen_tet_bisect tet_bisect_ok). Qed.
 Print Assumptions C13_tet_bisection_tiles_parent_partial.
+(* the work-list loop of MeshTet1._adaptive (model corresponded exactly with the real loop on ALL marked subsets of small meshes;
+   the re-ordering by _adaptive_sort_mesh is an arbitrary input).  Invariants of one sweep, for every state, every work list and
+   every re-ordering: one cell is appended per marked cell, it is the second child of the bisection of the re-ordered cell
+   along its edge (0,1); the parent array keeps its old entries and the appended cell inherits the parent of the cell it was cut
+   from (subdomain propagation of fix 4dd9939); old vertices keep index and position and every new node is a midpoint of two
+   old points; the next work list is exactly the set of cells containing both end points of a split edge. *)
+Theorem C13_tet_sweep_invariants : forall tpls st marked perm, length perm = length marked ->
+  let st' := tet_iter tpls st marked perm in
+  length (ts_t st') = length (ts_t st) + length marked /\
+  length (ts_par st') = length (ts_par st) + length marked /\
+  (forall k, (k < length (ts_par st) -> nth k (ts_par st') 0 = nth k (ts_par st) 0) /\
+             (k < length marked -> nth (length (ts_par st) + k) (ts_par st') 0 = nth (nth k marked 0) (ts_par st) 0)) /\
+  firstn (length (ts_p st)) (ts_p st') = ts_p st /\
+  (forall q, In q (skipn (length (ts_p st)) (ts_p st')) -> exists a b, q = midpoint 3 (ts_p st) [a; b]) /\
+  (forall i, i < length marked ->
+     exists m, nth (length (ts_t st) + i) (ts_t st') [] = bis_child (nth i perm []) m (nth 1 tpls [])).
+Proof.
+  intros tpls st marked perm Hp st'.
+  split; [exact (tet_iter_cells tpls st marked perm Hp)|].
+  split; [first [exact (tet_iter_parent_length tpls st marked perm Hp) | exact (tet_iter_parent_length tpls st marked perm)]|].
+  split; [first [exact (tet_iter_parent tpls st marked perm Hp) | exact (tet_iter_parent tpls st marked perm)]|].
+  split; [first [exact (tet_iter_old_vertices tpls st marked perm Hp) | exact (tet_iter_old_vertices tpls st marked perm)]|].
+  split; [first [exact (tet_iter_new_nodes tpls st marked perm Hp) | exact (tet_iter_new_nodes tpls st marked perm)]
+         | exact (tet_iter_appended_child tpls st marked perm Hp)].
+Qed.
+Print Assumptions C13_tet_sweep_invariants.
+
+Theorem C13_tet_worklist_from_incidence : forall st k,
+  In k (nonconforming st) <->
+  k < length (ts_t st) /\ exists a b m, In (a, b, m) (ts_sp st) /\ In a (nth k (ts_t st) []) /\ In b (nth k (ts_t st) []).
+Proof. exact nonconforming_spec. Qed.
+Print Assumptions C13_tet_worklist_from_incidence.
+
 (* full statement (NOT proved): for every tetrahedral mesh and marked set the loop of MeshTet1._adaptive
    terminates with a conforming mesh in which every marked cell is bisected. *)
 
